@@ -68,7 +68,7 @@ def rule_dedup(ctx, res):
     """every send_request whose transaction id is shared between iterations goes to destinations of a set iterator"""
     sites = ctx.calls_to('socket::Socket::send_request')
     res.sites += len(sites)
-    res.check(len(sites) >= 2, 'WHO', 'socket::Socket::send_request', 'send_request call sites (floor 2)', detail=str(len(sites)))
+    res.check(len(sites) >= 1, 'WHO', 'socket::Socket::send_request', 'send_request call sites (non-vacuity)', detail=str(len(sites)))
     for body in {x.body.path: x.body for x in sites}.values():
         res.touch(body)
         s = Sym(body)
